@@ -1272,3 +1272,92 @@ func ruleLineComplete(c *Ctx) {
 		}
 	}
 }
+
+// ruleWSSpec: see WS-SPEC.
+func ruleWSSpec(c *Ctx) {
+	c.Rule("WS-SPEC", "No function on the parse path (reachable from Parse, NextBlock, Rewrite, Extract) applies a Unicode-white-space function (strings/bytes TrimSpace, Fields, unicode.IsSpace) to document text: blank lines, gaps between root blocks and label white space are defined by space, tab, LF and CR only; the single spec-mandated Unicode classification (flanking) goes through isUnicodeWhitespace, which C15 checks.")
+	p := c.P
+	e := newEFF(p)
+	var entries []*ssa.Function
+	for _, f := range []*ssa.Function{p.Func("Parse"), p.Method("BlockParser", "NextBlock"), p.Method("InlineParser", "Rewrite"), p.Method("ReferenceMap", "Extract")} {
+		if f != nil {
+			entries = append(entries, f)
+		}
+	}
+	reach := e.reachableFrom(entries)
+	n, bad := 0, 0
+	for fn := range reach {
+		if !p.InModule(fn) {
+			continue
+		}
+		n++
+		eachInstr(fn, func(in ssa.Instruction) {
+			call, ok := in.(*ssa.Call)
+			if !ok {
+				return
+			}
+			f := call.Call.StaticCallee()
+			if f != nil && unicodeWSFuncs[f.String()] {
+				bad++
+				c.Viol("WS-SPEC", shortFuncName(fn)+"→"+f.String(), in.Pos(), f.String()+" treats NBSP, NEL, form feed, vertical tab … as white space; the block structure knows only space, tab, LF and CR")
+			}
+		})
+	}
+	if bad == 0 {
+		c.OK("WS-SPEC", "parse-path", token.NoPos, fmt.Sprintf("%d parse-path functions, none applies a Unicode-white-space function", n))
+	}
+	if n < 60 {
+		c.Undecided("WS-SPEC", "instance-count", token.NoPos, fmt.Sprintf("only %d parse-path functions reached", n))
+	}
+}
+
+// ruleReadErrKept: see READ-ERR-KEPT.
+func ruleReadErrKept(c *Ctx) {
+	c.Rule("READ-ERR-KEPT", "The error returned by Read is stored into the parser's err field itself (not a filtered or substituted value) on every path from the call: an error that arrives together with data is not dropped in the hope that the reader repeats it.")
+	n := 0
+	for _, fn := range c.P.Funcs {
+		eachInstr(fn, func(in ssa.Instruction) {
+			ci, ok := isInvokeOf(in, "Read")
+			if !ok {
+				return
+			}
+			n++
+			key := fmt.Sprintf("%s:Read#%d", shortFuncName(fn), n)
+			var ev ssa.Value
+			for _, r := range refsOf(ci.(ssa.Value)) {
+				if ex, ok := r.(*ssa.Extract); ok && ex.Index == 1 {
+					ev = ex
+				}
+			}
+			if ev == nil {
+				c.Viol("READ-ERR-KEPT", key, in.Pos(), "the error returned by Read is discarded")
+				return
+			}
+			var stores []ssa.Instruction
+			eachInstr(fn, func(x ssa.Instruction) {
+				if st, ok := x.(*ssa.Store); ok && st.Val == ev {
+					if _, ok := isFieldAddr(st.Addr, "BlockParser", "err"); ok {
+						stores = append(stores, st)
+					}
+				}
+			})
+			if len(stores) == 0 {
+				c.Viol("READ-ERR-KEPT", key, in.Pos(), "the error returned by Read is not stored into the parser's err field as it is")
+				return
+			}
+			isSt := func(x ssa.Instruction) bool {
+				for _, s := range stores {
+					if s == x {
+						return true
+					}
+				}
+				return false
+			}
+			skip := pathToExitAvoiding(in, isSt) || pathAvoiding(in, in, isSt)
+			c.Check(!skip, "READ-ERR-KEPT", key, in.Pos(), "there must be no path from Read that skips storing its error")
+		})
+	}
+	if n < 1 {
+		c.Undecided("READ-ERR-KEPT", "instance-count", token.NoPos, "no Read call found")
+	}
+}
